@@ -1,3 +1,4 @@
+import Props.C06Key
 import Props.SchedTie
 import TaskModel.Sched.MonC06
 import Props.C01
@@ -11,14 +12,13 @@ activation that meets the key becomes a waiter, starts no command, returns only 
 registered execution has finished and returns that execution's result (success or
 failure); a `run: always` task never touches the table: one body per reference.
 
-What the model does **not** decide: *which* key a reference gets.  Keys are opaque numbers
-carried by the `register k` / `waiter k` events (the real executor logs the hash string
-`GetHash` computed); whether two references get the same key exactly when the callee
-would behave the same (`run: once`: same task; `run: when_changed`: same task and same
-variable values, including values that only reach `env:` or a sub-call's `vars:`) is a
-property of `hash.go` / `internal/hash`, handled by the hash model, its own theorems and
-the correspondence harness of that domain — `C06_key_full` cannot be phrased over
-`Sched.Model` and is therefore not stated here.
+*Which* key a reference gets is decided in `Props.C06Key` (imported here): keys are opaque
+numbers in `Sched.Model` (the real executor logs the hash string `GetHash` computed);
+`C06Key.key_full_iff` / `whenChanged_exact` prove that under a hash reaching the whole
+compiled task two references share a key exactly when they are called with the same set of
+variable values (including values that only reach `env:` or a sub-call's `vars:`), and
+`C06Key.hash_reaches_all` ties that hypothesis to `hash.go` / `internal/hash` /
+`taskfile/ast` through the regenerated `Gen.HashFields`.
 -/
 namespace Props.C06
 open TaskModel.Sched
